@@ -130,6 +130,7 @@ def gen_command(ix: Index, kind=None):
         a += opt(rng, 0.25, "--days", rng.choice(["2", "5", "20", "0"]))
         a += opt(rng, 0.3, "--target", ix.group())
         a += opt(rng, 0.2, "--target", ix.group())
+        a += opt(rng, 0.2, "--target", ix.group())
     elif kind == "node verify":
         a += [ix.node()]
         a += opt(rng, 0.3, "--acq", ix.acq())
@@ -174,10 +175,12 @@ def gen_command(ix: Index, kind=None):
     elif kind == "node create":
         a += [rng.choice(["NEWNODE", "N1"])] + opt(rng, 0.8, "--group", ix.group()) + opt(rng, 0.3, "--create-group") + \
             opt(rng, 0.5, "--root", "/some/root") + opt(rng, 0.3, "--archive") + opt(rng, 0.2, "--auto-verify", rng.choice(["3", "-1"])) + \
-            opt(rng, 0.2, "--min-avail", rng.choice(["1.5", "-2"]))
+            opt(rng, 0.2, "--min-avail", rng.choice(["1.5", "-2"])) + opt(rng, 0.4, "--init") + opt(rng, 0.3, "--activate") + \
+            opt(rng, 0.2, "--host", "hx") + opt(rng, 0.2, "--auto-import") + opt(rng, 0.2, "--notes", "nn") + opt(rng, 0.15, "--io-var", "k=v")
     elif kind == "node modify":
         a += [ix.node()] + opt(rng, 0.4, "--host", "otherhost") + opt(rng, 0.3, "--max-total", rng.choice(["5", "-1"])) + \
-            opt(rng, 0.3, "--notes", "hello") + opt(rng, 0.2, "--field") + opt(rng, 0.2, "--io-config", rng.choice(['{"a": 1}', "notjson"]))
+            opt(rng, 0.3, "--notes", "hello") + opt(rng, 0.2, "--field") + opt(rng, 0.2, "--io-config", rng.choice(['{"a": 1}', "notjson"])) + \
+            opt(rng, 0.2, "--group", ix.group()) + opt(rng, 0.2, "--no-max-total") + opt(rng, 0.2, "--auto-verify", "4") + opt(rng, 0.2, "--root", "/new/root")
     elif kind == "node activate":
         a += [ix.node()] + opt(rng, 0.3, "--host", "h9") + opt(rng, 0.3, "--username", "u")
     elif kind == "node deactivate":
@@ -243,7 +246,7 @@ def canonical(ix: Index, kind):
         "file verify": [path, n],
         "file import": ["A1/x.dat", n, "--register-new"],
         "acq create": ["NEWACQ"],
-        "node create": ["NEWNODE", "--group", "NEWG", "--create-group", "--root", "/r", "--archive"],
+        "node create": ["NEWNODE", "--group", "NEWG", "--create-group", "--root", "/r", "--archive", "--init", "--activate", "--host", "hx"],
         "node modify": [n, "--host", "otherhost", "--notes", "hello", "--max-total", "5"],
         "node activate": [n, "--host", "h9", "--username", "u"],
         "node deactivate": [n],
